@@ -388,6 +388,19 @@ def run(ck):
                     new = [gen_dim(ck.rng, used, forced if forced is not None else None, freed) for _ in range(1 if forced is not None else ck.rng.choice([1, 1, 2]))]
                     if any(d.type_id == 0 for d in new):
                         fk += ":opaque%d" % next(d.count for d in new if d.type_id == 0)
+                    if dims and ck.rng.random() < 0.25:
+                        # the VLRs of another file that also has extra dimensions are carried over first (las.vlrs.extend(src.vlrs)): for a moment there are
+                        # two extra-bytes records next to each other; after the next edit there is exactly one again, describing this object's dimensions
+                        src_ = laspy.create(point_format=fmt, file_version=f"1.{minor}")
+                        src_.add_extra_dim(laspy.ExtraBytesParams("from_other_file", "u2"))
+                        src_.vlrs.append(laspy.VLR("verif_src", 5, "carried over", b"xyz"))
+                        where_ = ck.rng.choice(["end", "front"])
+                        if where_ == "end":
+                            las.vlrs.extend(src_.vlrs)
+                        else:
+                            las.vlrs[0:0] = list(src_.vlrs)
+                        hist.append(f"vlrs of another file with extra dimensions carried over ({where_})")
+                        ck.count("foreign_extra_bytes_vlr_carried_over")
                     if len(new) == 1:
                         las.add_extra_dim(new[0].params())
                         new[0].scribble()
@@ -441,11 +454,23 @@ def run(ck):
                     bad = ck.rng.choice(["X", "intensity", "classification", "no_such_dim", "gps_time"])
                     names = [bad] + ([dims[0].name] if dims and ck.rng.random() < 0.5 else [])
                     ck.rng.shuffle(names)
+                    entry = ck.rng.choice(["lasdata", "lasdata", "header", "header_list", "point_format"]) if bad != "no_such_dim" else "lasdata"
                     try:
-                        las.remove_extra_dims(names)
-                        ck.fail(f"removing {names} (a standard or unknown dimension) did not raise", inp)
+                        if entry == "lasdata":
+                            las.remove_extra_dims(names)
+                        elif entry == "header":
+                            names = [bad]
+                            las.header.remove_extra_dim(bad)
+                        elif entry == "header_list":
+                            names = [bad]
+                            las.header.remove_extra_dims([bad])
+                        else:
+                            names = [bad]
+                            las.point_format.remove_extra_dimension(bad)
+                        ck.fail(f"removing {names} (a standard or unknown dimension) through {entry} did not raise", inp)
                     except LaspyException:
                         pass
+                    ck.count("remove_bad_through:" + entry)
                     ops_tok.append("R=" + "|".join(hx(x.encode()) for x in names))
                     flags.append("0")
                     hist.append("remove_bad " + ",".join(names))
